@@ -215,8 +215,13 @@ func sec1Workload(t *testing.T, c *c09ref.SEC1Curve, g group.Group, r *lib.Rng, 
 		return out
 	}
 	nl := 0
-	for i := 0; nl < q.lift && i < 8*q.lift; i++ {
-		x := randBelow(r, room)
+	for i := 0; nl < q.lift+8 && i < 8*q.lift+16; i++ {
+		// the first candidates are the smallest abscissas (x = 0 first: x + p
+		// is then the modulus itself), the others random below 2^(8l) - p
+		x := big.NewInt(int64(i))
+		if i >= 16 {
+			x = randBelow(r, room)
+		}
 		xe := c09ref.El{A: x, B: new(big.Int)}
 		y, ok := f.Sqrt(c.C.RHS(xe))
 		if !ok {
